@@ -313,6 +313,42 @@ def c02Pred (D : DictM) (o : TokOpts) (sent : List Nat) (ts : List ITok) : Bool 
   | none => false
   | some (r, c) => c + D.cost r 0 == Lt.eos.minCost
 
+/-- Minimum total cost over ALL candidate segmentations of the sentence in the sense of
+`Props/C02cap.lean` (`CandSeg` from boundary 0 to a final boundary, `segCost`), computed by a
+forward dynamic programme over boundaries that does not depend on which boundaries the
+lattice loop visits.  It differs from the lattice minimum exactly when a candidate ends inside
+or right after a run of skipped spaces (`NoEndInSkip` fails; known finding F24). -/
+def specMin (E : LatEnv) : Option Int :=
+  let minOver (here : List (Nat × Int)) (l : Nat) (m0 : Option Int) : Option Int :=
+    here.foldl (fun m p =>
+      let v := p.2 + E.conn p.1 l
+      match m with
+      | none => some v
+      | some m' => some (min m' v)) m0
+  let init : List (List (Nat × Int)) := [(0, 0)] :: List.replicate E.len []
+  let table := (List.range E.len).foldl (fun tbl x =>
+    let here := tbl.getD x []
+    if here.isEmpty then tbl else
+    let sw := x + E.skip x
+    if sw ≥ E.len then tbl else
+    (E.cands sw).foldl (fun tbl c =>
+      match minOver here c.leftId none with
+      | none => tbl
+      | some b => tbl.modify c.endWord (· ++ [(c.rightId, b + c.wordCost)])) tbl) init
+  let finals := (List.range (E.len + 1)).filter fun sn => sn == E.len || E.len ≤ sn + E.skip sn
+  finals.foldl (fun m sn => minOver (table.getD sn []) 0 m) none
+
+/-- **C02, unrestricted reading**: the reported total equals the minimum over all candidate
+segmentations (`specMin`). -/
+def c02SpecPred (D : DictM) (o : TokOpts) (sent : List Nat) (ts : List ITok) : Bool :=
+  if sent.isEmpty then ts.isEmpty else
+  let TD := D.tokDict
+  let E := latEnvOf TD (compileSent TD sent) o
+  let implTotal : Int := match ts.getLast? with
+    | none => D.cost 0 0
+    | some t => t.total + D.cost t.right 0
+  specMin E == some implTotal
+
 /-- **C04 predicate**: the tokens read after `reset s; tokenize⁺` are those a fresh worker
 reports for `s` (compared as canonical strings against the fresh model run). -/
 def freshObs (fx : Fixes) (T : TokenizerM) (sent : List Nat) : Option String :=
@@ -332,7 +368,7 @@ def evalP (fx : Fixes) (D0 : DictM) (c : Case) : String :=
       let parts := splitParts c.impl
       let find (i : Nat) : Option (List String) :=
         (parts.find? fun p => p.head? == some s!"W{i}").map (·.drop 1)
-      let rec go : List WOp → Nat → List Nat → Bool → (Bool × Bool × Bool × Nat) → (Bool × Bool × Bool × Nat)
+      let rec go : List WOp → Nat → List Nat → Bool → (Bool × Bool × Bool × Nat × Bool) → (Bool × Bool × Bool × Nat × Bool)
         | [], _, _, _, acc => acc
         | op :: ops, i, sent, tokd, acc =>
           match op with
@@ -342,20 +378,20 @@ def evalP (fx : Fixes) (D0 : DictM) (c : Case) : String :=
             match (find i).bind parseITokens with
             | none => go ops (i + 1) sent tokd acc
             | some its =>
-              let (a1, a2, a4, n) := acc
+              let (a1, a2, a4, n, a2s) := acc
               if tokd then
                 let fresh := freshObs Fixes.all T sent
                 let mine := some (s!"ok {its.length}" ++ String.join ((find i).getD [] |>.drop 2 |>.map (" " ++ ·)))
                 go ops (i + 1) sent tokd
                   (a1 && c01Pred D T.opts sent its, a2 && c02Pred D T.opts sent its,
-                   a4 && (fresh == mine || fresh.isNone), n + 1)
-              else go ops (i + 1) sent tokd (a1, a2, a4 && its.isEmpty, n + 1)
+                   a4 && (fresh == mine || fresh.isNone), n + 1, a2s && c02SpecPred D T.opts sent its)
+              else go ops (i + 1) sent tokd (a1, a2, a4 && its.isEmpty, n + 1, a2s)
           | _ => go ops (i + 1) sent tokd acc
-      let (p1, p2, p4, n) := go c.wops 0 [] false (true, true, true, 0)
+      let (p1, p2, p4, n, p2s) := go c.wops 0 [] false (true, true, true, 0, true)
       if n = 0 then "n/a"
       else
         let b (x : Bool) := if x then "1" else "0"
-        s!"C01={b p1} C02={b p2} C04={b p4}"
+        s!"C01={b p1} C02={b p2} C02S={b p2s} C04={b p4}"
   | _, _ => "n/a"
 
 /-- id-free projection of a token: what C06/C12 say must not change -/
